@@ -14,6 +14,7 @@ import (
 	"os"
 	"path/filepath"
 	"runtime"
+	"sort"
 	"strings"
 	"sync"
 	"sync/atomic"
@@ -267,27 +268,39 @@ func runTask(n *p2penv.Node, ts taskSpec, logDir string) taskOut {
 			p.Close()
 		}
 	}()
-	// bound: generous multiple of the worst-case retry budget of the (repaired) downloader
-	// (first pass: stalled requests of different heights wait concurrently, 10 s per stalling peer; re-download pass:
-	// sequential, 10 s per stalled (peer, height); an unadvertised height costs 50 x 400 ms per pass)
-	nStall, nUnadv := int64(0), int64(0)
+	// bound: generous multiple of the worst-case retry budget of the (repaired) downloader. A height that fails at
+	// every advertising peer costs its stalled requests (10 s deadline each) plus, when a non-advertising peer stays
+	// in the list, 50 retries x 400 ms; the first pass runs the heights concurrently, the re-download pass one by one.
+	var pass1, pass2 int64 // seconds
 	stallPeers := map[int]bool{}
 	for h := ts.Start; h <= ts.End; h++ {
-		adv := false
+		servable, unadv, stalls := false, false, int64(0)
 		for i := range ts.Peers {
-			if ts.Peers[i].Adv >= h {
-				adv = true
-				if ts.Peers[i].mode(h) == mStall {
-					nStall++
-					stallPeers[i] = true
-				}
+			if ts.Peers[i].Adv < h {
+				unadv = true
+				continue
+			}
+			switch m := ts.Peers[i].mode(h); {
+			case serves(m):
+				servable = true
+			case m == mStall:
+				stalls++
+				stallPeers[i] = true
 			}
 		}
-		if !adv {
-			nUnadv = 1
+		cost := stalls * 10
+		if !servable && unadv {
+			cost += 21
+		}
+		if cost > pass1 {
+			pass1 = cost
+		}
+		if !servable {
+			pass2 += cost
 		}
 	}
-	bound := 30*time.Second + 2*time.Duration((int64(len(stallPeers))+nStall)*10+nUnadv*2*21)*time.Second
+	pass1 += int64(len(stallPeers)) * 10
+	bound := 30*time.Second + 2*time.Duration(pass1+pass2)*time.Second
 	to.BoundMs = bound.Milliseconds()
 	seq0 := int64(0)
 	if ps := n.Chain.Snapshot(0); len(ps) > 0 {
@@ -305,7 +318,26 @@ func runTask(n *p2penv.Node, ts taskSpec, logDir string) taskOut {
 	case <-ret:
 		to.Returned = true
 	case <-time.After(bound):
-		to.HangFrames = downloadGoroutines()
+		// a goroutine that sits in the same stream exchange in two dumps 15 s apart has outlived any 10 s stream
+		// deadline: it is blocked for good. Goroutines that are merely retrying (sleep) are not a hang.
+		d1 := downloadGoroutines("downloadBlockFromPeerOld")
+		select {
+		case <-ret:
+			to.Returned = true
+		case <-time.After(15 * time.Second):
+			d2 := downloadGoroutines("downloadBlockFromPeerOld")
+			var keep []string
+			for id, st := range d2 {
+				if _, ok := d1[id]; ok {
+					keep = append(keep, st)
+				}
+			}
+			sort.Strings(keep)
+			if len(keep) > 4 {
+				keep = keep[:4]
+			}
+			to.HangFrames = strings.Join(keep, "\n\n")
+		}
 	}
 	to.WallMs = time.Since(t0).Milliseconds()
 	n.Barrier()
@@ -341,24 +373,25 @@ func runTask(n *p2penv.Node, ts taskSpec, logDir string) taskOut {
 
 func blockID(b *types.Block) string { return fmt.Sprintf("%s|%d", b.ParentHash, b.Height) }
 
-// downloadGoroutines returns the stacks of goroutines currently inside the download package.
-func downloadGoroutines() string {
-	buf := make([]byte, 8<<20)
+// downloadGoroutines returns the stacks (by goroutine header) of goroutines currently inside fn of the download package.
+func downloadGoroutines(fn string) map[string]string {
+	buf := make([]byte, 16<<20)
 	buf = buf[:runtime.Stack(buf, true)]
-	var keep []string
+	out := map[string]string{}
 	for _, g := range strings.Split(string(buf), "\n\n") {
-		if strings.Contains(g, "dht/protocol/download.(*Protocol)") {
+		if strings.Contains(g, "dht/protocol/download.(*Protocol)."+fn) {
 			ls := strings.Split(g, "\n")
+			id := strings.Fields(ls[0])
+			if len(id) < 2 {
+				continue
+			}
 			if len(ls) > 24 {
 				ls = ls[:24]
 			}
-			keep = append(keep, strings.Join(ls, "\n"))
+			out[id[1]] = strings.Join(ls, "\n")
 		}
 	}
-	if len(keep) > 6 {
-		keep = append(keep[:6], fmt.Sprintf("... (+%d more)", len(keep)-6))
-	}
-	return strings.Join(keep, "\n\n")
+	return out
 }
 
 func main() {
